@@ -287,6 +287,81 @@ def mutate_sessions(rng, tier, n=30):
     return ss
 
 
+def text_nearmiss_sessions(rng, tier):
+    """files of different molecules (a label dropped, moved to another element, a radical removed, a bond removed), spelled with
+    continuation lines / several property lines: the pipeline must keep them apart"""
+    import textgen
+    ss = []
+    for i in range(40 if tier == "quick" else 500):
+        M = textgen.abstract_molecule(rng, 7, coords=["0", "1.5", "-2.25"])
+        lab = [k for k, a in enumerate(M["atoms"]) if a["mass"] or a["rad"]]
+        if not lab:
+            k = rng.randrange(len(M["atoms"]))
+            M["atoms"][k]["mass"] = 13 if M["atoms"][k]["sym"] != "H" else 2
+            lab = [k]
+        for a in M["atoms"]:
+            if a["rad"] not in (0, 2):
+                a["rad"] = 2
+        N = {"atoms": [dict(a) for a in M["atoms"]], "bonds": list(M["bonds"])}
+        k = rng.choice(lab)
+        if N["atoms"][k]["mass"] and (not N["atoms"][k]["rad"] or rng.random() < 0.5):
+            N["atoms"][k]["mass"] = 0
+        else:
+            N["atoms"][k]["rad"] = 0
+        if i % 4 == 0:
+            # a radical ion: the radical and the charge sit on different atoms, so V2000 needs an M  RAD and an M  CHG line
+            M["atoms"] = [dict(a, chg=0, rad=0) for a in M["atoms"]] + [dict(sym="N", chg=1, rad=0, mass=0, x="0", y="0", z="0"), dict(sym="C", chg=0, rad=2, mass=0, x="1.5", y="0", z="0")]
+            N = {"atoms": [dict(a) for a in M["atoms"]], "bonds": list(M["bonds"])}
+            N["atoms"][-1]["rad"] = 0
+        single = i % 4 == 1
+        if single:
+            # exactly one labelled atom and nothing else on its line: losing that one property turns M into N
+            M["atoms"] = [dict(a, chg=0, rad=0, mass=0) for a in M["atoms"]]
+            k = rng.randrange(len(M["atoms"]))
+            key = rng.choice(["mass", "rad"])
+            M["atoms"][k][key] = 2 if key == "rad" else (13 if M["atoms"][k]["sym"] != "H" else 2)
+            N = {"atoms": [dict(a) for a in M["atoms"]], "bonds": list(M["bonds"])}
+            N["atoms"][k][key] = 0
+        S = Session(f"textnear-{i}")
+        ids = []
+        for X in (M, N):
+            if single:
+                lines, _ = textgen.render_v3000(X, rng, opts={"cont": 0, "extras": False, "defaults": False, "star": False, "dt": False, "tailblank": False})
+                out_lines = []
+                for l in lines:
+                    j = max(l.find(" MASS="), l.find(" RAD="))
+                    while j > 0 and l[j - 1] == " ":
+                        j -= 1                      # in front of the whole run of blanks
+                    if l.startswith("M  V30 ") and j > 8:
+                        out_lines += [l[:j] + "-", "M  V30 " + l[j:]]
+                    else:
+                        out_lines.append(l)
+                ids.append(S.read(out_lines, "V3000", "C07", floats=textgen.floats_of(X)))
+            elif (rng.random() < 0.4 or i % 4 == 0) and textgen.fits_v2000(X):
+                lines, _ = textgen.render_v2000(X, rng, opts={"group": rng.choice([1, 2, 8]), "order": rng.choice(["cri", "irc", "mixed"]), "mode": "lines" if i % 4 == 0 else rng.choice(["lines", "stale"])})
+                ids.append(S.read(lines, "V2000", "C08", floats=textgen.floats_of(X)))
+            else:
+                lines, _ = textgen.render_v3000(X, rng, opts={"cont": rng.choice([0, 1, 2]), "extras": True, "star": False, "dt": False})
+                # a continuation break exactly in front of the blank before a labelling property
+                out_lines = []
+                for l in lines:
+                    j = max(l.find(" MASS="), l.find(" RAD="))
+                    if l.startswith("M  V30 ") and j > 8 and not l.endswith("-") and rng.random() < 0.7:
+                        out_lines += [l[:j] + "-", "M  V30 " + l[j:]]
+                    else:
+                        out_lines.append(l)
+                ids.append(S.read(out_lines, "V3000", "C07", floats=textgen.floats_of(X)))
+        for x in ids:
+            if x:
+                c = S.canon(x)
+                if c:
+                    S.ser(c)
+        if all(ids):
+            S.distincttext(ids[0], ids[1])
+        ss.append(S)
+    return ss
+
+
 @check("C02")
 def c02(out, tier, rng):
     design_pipeline(out, tier)
@@ -298,6 +373,7 @@ def c02(out, tier, rng):
     out.extra["spec_to_code_inputs"] = len(items)
     ss += nearmiss_sessions(rng, tier)
     ss += mutate_sessions(rng, tier)
+    ss += text_nearmiss_sessions(rng, tier)
     # CFI twins: same size, same degrees, indistinguishable by refinement, not isomorphic
     cfi = gen.cfi_graphs(80 if tier == "quick" else 220)
     S = Session("cfi-twins")
@@ -459,9 +535,10 @@ def formula_stress(rng, tier, n=60):
 def c05(out, tier, rng):
     design_pipeline(out, tier, downstream=True)
     ss = enumerated_sessions(out, tier, rng, parse_back=False, quick_limit=80)
-    pool = formula_stress(rng, tier) + drivers.special_molecules()
+    pool = formula_stress(rng, tier) + drivers.special_molecules() + gen.multi_labelled(rng, 12 if tier == "quick" else 120)
     ss += [pipeline_session(name, g, rng, k=1, parse_back=True) for name, g in pool]
     ss += reader_fed_sessions(rng, tier)
+    ss += mutate_sessions(rng, tier, n=12)          # the string must describe the molecule as it stands when the pipeline is called
     count_sessions(out, ss, "c05")
     validate_sessions(out, ss, "C05:", rl=0)
     out.extra["rule"] = RULE + "; C05 judges every emitted string with the specification's character-level recognizer and layout rules"
